@@ -136,10 +136,24 @@ func parseRaces(out string) map[string]string {
 			if j := strings.Index(s, "\n\n"); j >= 0 {
 				s = s[:j]
 			}
-			if m := raceFrame.FindStringSubmatch(s); m != nil {
-				f := m[1]
-				f = strings.TrimPrefix(f, "github.com/xujiajun/nutsdb")
-				f = strings.TrimPrefix(f, ".")
+			if ms := raceFrame.FindAllStringSubmatch(s, -1); len(ms) > 0 {
+				trim := func(f string) string {
+					f = strings.TrimPrefix(f, "github.com/xujiajun/nutsdb")
+					return strings.TrimPrefix(f, ".")
+				}
+				// innermost library frame, and the library entry point it was reached from (the
+				// outermost library frame that is not the managed-transaction wrapper)
+				f := trim(ms[0][1])
+				api := ""
+				for i := len(ms) - 1; i > 0; i-- {
+					if a := trim(ms[i][1]); a != "(*DB).managed" {
+						api = a
+						break
+					}
+				}
+				if api != "" && api != f {
+					f += "@" + api
+				}
 				tops = append(tops, f)
 			}
 		}
